@@ -2,7 +2,7 @@
 //! output caps, CPU limits and a wall-clock watchdog (expiry = inconclusive, never a violation).
 
 use std::io::{Read, Write};
-use std::os::unix::process::{CommandExt, ExitStatusExt};
+use std::os::unix::process::ExitStatusExt;
 use std::path::{Path, PathBuf};
 use std::process::{Command, Stdio};
 use std::sync::atomic::{AtomicU64, Ordering};
@@ -82,17 +82,16 @@ pub fn run(program: &Path, args: &[&str], opts: &RunOpts) -> std::io::Result<Out
     if let Some(d) = opts.cwd {
         cmd.current_dir(d);
     }
-    if let Some(cpu) = opts.cpu_secs {
-        unsafe {
-            cmd.pre_exec(move || {
-                let lim = libc::rlimit { rlim_cur: cpu, rlim_max: cpu + 1 };
-                libc::setrlimit(libc::RLIMIT_CPU, &lim);
-                Ok(())
-            });
-        }
-    }
     let t0 = Instant::now();
     let mut child = cmd.spawn()?;
+    if let Some(cpu) = opts.cpu_secs {
+        // set from outside right after the spawn: keeps Command on the fast posix_spawn path
+        // (a pre_exec hook forces fork() of this large multi-threaded process)
+        let lim = libc::rlimit { rlim_cur: cpu, rlim_max: cpu + 1 };
+        unsafe {
+            libc::prlimit(child.id() as libc::pid_t, libc::RLIMIT_CPU, &lim, std::ptr::null_mut());
+        }
+    }
     let mut stdin = child.stdin.take().unwrap();
     let stdout = child.stdout.take().unwrap();
     let stderr = child.stderr.take().unwrap();
